@@ -19,7 +19,7 @@ def hx(v):
 
 def k_literals(ctx):
     exe = vlib.compile_harness("harness/strings.cpp", extra_src=["lib/gnu_gama/xml/str2xml.cpp"])
-    maxlen = 4 if ctx.quick else 6
+    maxlen = 4 if ctx.quick else 5
     inp = "enum isfloat %s %d\nenum isinteger %s %d\n" % (LIT_ALPHA.hex(), maxlen, LIT_ALPHA.hex(), maxlen)
     rc, out, err = vlib.sh([exe], inp=inp, timeout=300)
     lines = out.split("\n")
